@@ -603,7 +603,7 @@ func (st *State) heapArr(key string, elem *Sort) *Term {
 	}
 	name := fmt.Sprintf("H%d_%s", st.epoch, sanitize(key))
 	for _, lh := range st.lazyHavoc {
-		if strings.Contains(key, lh.pat) {
+		if (!lh.prefixOnly && strings.Contains(key, lh.pat)) || (lh.prefixOnly && strings.HasPrefix(key, lh.pat)) {
 			prev := name
 			name = fmt.Sprintf("H%d_%s_%s", st.epoch, sanitize(key), lh.tag)
 			if lh.newOnly {
